@@ -50,7 +50,8 @@ PROBES = {
             'cache_lazy_fill', 'cache_fill_simulated_tid', 'cache_find_all_threads_gt1', 'implicit_context_switch', 'reorder_then_query',
             'empty_array_present', 'coincident_points', 'far_from_origin', 'h_decades', 'refused_too_many_cells',
             'band_pairs', 'added_particles', 'removed_particles', 'cache_toggled'],
-    'C17': ['reorder_with_nonlocal_tags', 'reorder_strided', 'repeated_reorder', 'reorder_then_query', 'reorder_empty_array'],
+    'C17': ['reorder_with_nonlocal_tags', 'reorder_strided', 'repeated_reorder', 'reorder_then_query', 'reorder_empty_array',
+            'solver_reorder_then_query_without_update', 'periodic_domain', 'reorder_with_domain_ghosts'],
 }
 
 
@@ -59,6 +60,7 @@ def prepare(prop, tier):
     build.activate()
     import pysph.base.nnps  # noqa
     import pysph.base.utils  # noqa
+    import pysph.solver.solver  # noqa  (Solver.reorder_particles is one of the re-ordering entry points)
 
 
 # ----------------------------------------------------------------------------
@@ -158,7 +160,7 @@ def gen(t, prop, tier):
     nops = t.choice([0, 1, 2, 4, 6, 10])
     for _ in range(nops):
         if prop == 'C17':
-            k = t.wchoice([('reorder', 6), ('move', 3), ('add', 1), ('remove', 1), ('set_h', 1), ('toggle_cache', 1)])
+            k = t.wchoice([('reorder', 6), ('move', 3), ('add', 1), ('remove', 1), ('set_h', 1), ('toggle_cache', 1), ('solver_reorder', 3)])
         else:
             k = t.wchoice([('move', 5), ('set_h', 2 if not fixed_h else 0), ('add', 3), ('remove', 3), ('toggle_cache', 2),
                            ('reorder', 2), ('noop', 1)])
@@ -180,9 +182,16 @@ def gen(t, prop, tier):
     qmodes = [dict(mode=t.wchoice([('cached', 5), ('nocache', 2), ('find_all', 3)]),
                    ctx=t.wchoice([('explicit', 3), ('implicit', 2)]), order_seed=t.int(0, 1 << 20), sim_tids=int(t.bool(0.5)))
               for _ in range(len(ops) + 1)]
-    return dict(dim=dim, cls=cls, knobs=knobs, cache=int(t.bool(0.6)) if cls != 'dbox' else 0, sort_gids=int(t.bool(0.4)), fixed_h=fixed_h,
-                radius_scale=t.choice([2.0, 2.0, 3.0, 1.0, 2.5]), nthreads=t.choice([1, 1, 2, 3, 4, 8]),
-                valid_gids=int(t.bool(0.5)), scale=scale, hbase=hbase, arrays=arrays, ops=ops, qmodes=qmodes)
+    sc = dict(dim=dim, cls=cls, knobs=knobs, cache=int(t.bool(0.6)) if cls != 'dbox' else 0, sort_gids=int(t.bool(0.4)), fixed_h=fixed_h,
+              radius_scale=t.choice([2.0, 2.0, 3.0, 1.0, 2.5]), nthreads=t.choice([1, 1, 2, 3, 4, 8]),
+              valid_gids=int(t.bool(0.5)), scale=scale, hbase=hbase, arrays=arrays, ops=ops, qmodes=qmodes)
+    if prop == 'C17' and hvar != 'decades' and t.bool(0.3):
+        # a periodic box around the particles: the arrays then also hold the domain manager's ghost particles
+        ax = [int(k < dim and t.bool(0.7)) for k in range(3)]
+        if not any(ax):
+            ax[0] = 1
+        sc['periodic'] = ax
+    return sc
 
 
 def needs_isolation(sc):
@@ -210,12 +219,14 @@ def sig_of(sc):
 
 
 # ----------------------------------------------------------------------------
-def _make_nnps(sc, particles):
+def _make_nnps(sc, particles, domain=None):
     from pysph.base import nnps as N
     cls = sc['cls']
     kn = dict(sc.get('knobs') or {})
     kw = dict(dim=int(sc['dim']), particles=particles, radius_scale=float(sc.get('radius_scale', 2.0)),
               cache=bool(sc.get('cache')), sort_gids=bool(sc.get('sort_gids')))
+    if domain is not None:
+        kw['domain'] = domain
     fh = bool(sc.get('fixed_h'))
     if cls == 'll':
         return N.LinkedListNNPS(fixed_h=fh, **kw)
@@ -426,8 +437,31 @@ def execute(sc, prop):
     if narr > 1:
         probe('cross_array_pair')
     refused = False
+    dom = None
+    hcap = None
+    per = sc.get('periodic')
+    if per:
+        try:
+            ax = [bool(int(v)) for v in per][:3]
+            assert len(ax) == 3 and any(ax[:dim]) and not any(ax[dim:])
+        except Exception:
+            raise InvalidScenario('periodic axes')
+        if prop != 'C17' or cls not in REORDER:
+            raise InvalidScenario('periodic boxes are drawn for C17 only')
+        hmax0 = max(r[3] for r in allp)
+        if hmax0 / hmin > 3.0:
+            raise InvalidScenario('periodic box with h over decades')
+        pad = 4.0 * rs * hmax0
+        hcap = 1.5 * hmax0
+        lo = [min(r[k] for r in allp) - pad for k in range(3)]
+        hi = [max(r[k] for r in allp) + pad for k in range(3)]
+        from pysph.base.nnps import DomainManager
+        dom = DomainManager(xmin=lo[0], xmax=hi[0], ymin=lo[1] if dim > 1 else 0.0, ymax=hi[1] if dim > 1 else 0.0,
+                            zmin=lo[2] if dim > 2 else 0.0, zmax=hi[2] if dim > 2 else 0.0,
+                            periodic_in_x=ax[0], periodic_in_y=ax[1], periodic_in_z=ax[2])
+        probe('periodic_domain')
     try:
-        nnps = _make_nnps(sc, w.particles)
+        nnps = _make_nnps(sc, w.particles, dom)
         nnps.update_domain()
         nnps.update()
     except RuntimeError as e:
@@ -577,6 +611,8 @@ def execute(sc, prop):
                     continue
                 if 0.05 <= f <= 20:
                     h[i] = min(max(h[i] * f, hbase * 0.05), hbase * 20)
+                    if hcap is not None:
+                        h[i] = min(h[i], hcap)
         elif k == 'add':
             rows = _rows(op)
             if not rows:
@@ -614,6 +650,8 @@ def execute(sc, prop):
             tags = _arr(pa, 'tag')
             if n and (tags != 0).any():
                 probe('reorder_with_nonlocal_tags')
+            if dom is not None and n and (tags == 2).any():
+                probe('reorder_with_domain_ghosts')
             if n == 0:
                 probe('reorder_empty_array')
             probe('reorder_strided')
@@ -632,6 +670,28 @@ def execute(sc, prop):
             if w.viol:
                 break
             # Solver.reorder_particles follows the permutation with a domain and nnps update
+        elif k == 'solver_reorder':
+            if cls not in REORDER:
+                continue
+            import types
+            import pysph.solver.solver as SM
+            befores = [_records(p) for p in w.particles]
+            if dom is not None and any((_arr(p, 'tag') == 2).any() for p in w.particles if p.get_number_of_particles()):
+                probe('reorder_with_domain_ghosts')
+            # the real method on a minimal `self`: re-orders every array and updates the neighbour structure itself
+            SM.Solver.reorder_particles(types.SimpleNamespace(particles=w.particles, nnps=nnps))
+            for j in range(narr):
+                _check_reorder_state(w, j, befores[j], 'Solver.reorder_particles')
+            nreorder += 1
+            if nreorder > 1:
+                probe('repeated_reorder')
+            if w.viol:
+                break
+            kinds.append(k)
+            probe('solver_reorder_then_query_without_update')
+            query_round(oi + 1, 'directly after Solver.reorder_particles (array %d, round %d)' % (ai, rounds))
+            rounds += 1
+            continue
         elif k == 'noop':
             pass
         else:
@@ -654,7 +714,7 @@ def execute(sc, prop):
         query_round(oi + 1, 'after %s on array %d (round %d)' % (k, ai, rounds))
         rounds += 1
     shape = (cls, sorted((sc.get('knobs') or {}).items()), dim, [s.get('kind') for s in specs], kinds,
-             [len(r) for r in rowsets], bool(sc.get('cache')), bool(sc.get('sort_gids')))
+             [len(r) for r in rowsets], bool(sc.get('cache')), bool(sc.get('sort_gids')), bool(per))
     viol = w.viol
     if prop == 'C17':
         # C17 decides on its own invariants; a pure neighbour-set violation with no
